@@ -191,3 +191,36 @@ def xtext(node, aliases):
             return n
     import copy
     return unparse(T().visit(copy.deepcopy(node)))
+
+
+def is_selection_of(fnode, expr, source_text):
+    """does `expr` denote a (filtered, order keeping) selection of the elements of <source_text>?
+    accepted: [v for v in S if ...]; a local bound to such a comprehension; a local initialised [] and filled only by
+    `.append(v)` inside `for v in S` (possibly under conditions)."""
+    def comp_ok(c):
+        return isinstance(c, ast.ListComp) and len(c.generators) == 1 and unparse(c.generators[0].iter) == source_text \
+            and isinstance(c.generators[0].target, ast.Name) and unparse(c.elt) == c.generators[0].target.id
+    if comp_ok(expr):
+        return True
+    if not isinstance(expr, ast.Name):
+        return False
+    defs = local_assignments(fnode, expr.id)
+    if len(defs) != 1:
+        return False
+    if comp_ok(defs[0]):
+        return True
+    if not (isinstance(defs[0], ast.List) and not defs[0].elts):
+        return False
+    uses = [c for c in calls_in(fnode) if isinstance(c.func, ast.Attribute) and isinstance(c.func.value, ast.Name) and c.func.value.id == expr.id
+            and c.func.attr in ("append", "extend", "insert", "remove", "pop", "sort", "reverse", "clear")]
+    if not uses or any(c.func.attr != "append" for c in uses):
+        return False
+    for c in uses:
+        ok = False
+        for loop in ast.walk(fnode):
+            if isinstance(loop, ast.For) and isinstance(loop.target, ast.Name) and unparse(loop.iter) == source_text \
+                    and any(y is c for y in ast.walk(loop)) and len(c.args) == 1 and unparse(c.args[0]) == loop.target.id:
+                ok = True
+        if not ok:
+            return False
+    return True
